@@ -170,6 +170,7 @@ func argVariants(t reflect.Type) []reflect.Value {
 		add(1)
 		add(-1)
 		add(7)
+		add(1000)
 	case reflect.Bool:
 		add(true)
 	case reflect.String:
@@ -357,6 +358,20 @@ func reflRecv(name string) (recv any, isStack bool) {
 		tbl := []string{"<", ">", "[", "]", "{", "}"}
 		inner := stk.Or().Push("x", "y").SetEncap(tbl[1:2])
 		return mk(stk.And().SetEncap(tbl[:1]).SetEncap(tbl[2:4])).Push(inner, stk.Cond("k", stk.Eq, "v").SetEncap(tbl[4:5])), true
+	case "big":
+		// 1200 elements, some of them Stacks and Conditions
+		vals := make([]any, 0, 1200)
+		for i := 0; i < 1200; i++ {
+			switch i % 97 {
+			case 13:
+				vals = append(vals, stk.Or().Push(i, "x"))
+			case 57:
+				vals = append(vals, stk.Cond("k", stk.Eq, i))
+			default:
+				vals = append(vals, i)
+			}
+		}
+		return stk.And().SetID("big").Push(vals...), true
 	case "maps", "maps-twin":
 		// map leaves with several entries that are no primitives: the verdict of a
 		// comparison must not depend on the order the runtime walks them in
@@ -392,10 +407,11 @@ func mapsLeaf(variant int) map[string]any {
 	return m
 }
 
+var zeroProbed bool
 var otherHandleParent stk.Stack
 var reinitProblem string
 
-var reflStackRecvs = []string{"and", "or-sym", "not", "list", "basic", "fifo-mutex", "empty", "policies", "encap-window", "closures-ro", "failing-unmarshal", "maps"}
+var reflStackRecvs = []string{"and", "or-sym", "not", "list", "basic", "fifo-mutex", "empty", "policies", "encap-window", "closures-ro", "failing-unmarshal", "maps", "big"}
 var reflCondRecvs = []string{"cond", "cond-stack", "cond-init", "cond-maps"}
 
 func isZeroVal(v reflect.Value) bool {
@@ -540,6 +556,12 @@ func runRefl(raw json.RawMessage) (res *Result, err error) {
 		}
 	}
 	problems := []string{}
+	if in.Mode == "zero" && !zeroProbed {
+		zeroProbed = true
+		if p := ptrExprProbe(); p != "" {
+			problems = append(problems, p)
+		}
+	}
 	if reinitProblem != "" {
 		problems = append(problems, reinitProblem)
 		reinitProblem = ""
@@ -654,6 +676,40 @@ func runRefl(raw json.RawMessage) (res *Result, err error) {
 			problems = append(problems, fmt.Sprintf("state changed: before=%s after=%s", trunc(string(bj), 600), trunc(string(aj), 600)))
 		}
 		if in.Mode == "ro" && !panicked && !in.Held {
+			// the read-only instance handed to OTHER instances as an argument (pushed into a
+			// policed Stack, set as a Condition's expression, named as a Transfer
+			// destination, compared): whatever they do with it, it stays as it is
+			func() {
+				defer func() {
+					if r := recover(); r != nil {
+						problems = append(problems, "handing the read-only instance to another instance panicked: "+fmt.Sprint(r))
+					}
+				}()
+				m := pv.Elem().Interface()
+				accept := func(...any) error { return nil }
+				p := stk.And().SetPushPolicy(accept).SetValidityPolicy(accept).SetPresentationPolicy(func(...any) string { return "P" }).
+					SetEqualityPolicy(func(any, any) error { return nil }).SetMutex()
+				p.SetLogLevel("ALL")
+				p.Push("a", m)
+				p.Insert(m, 0)
+				p.Replace(m, 0)
+				_ = p.String()
+				_ = p.Valid()
+				_ = p.IsEqual(m)
+				_, _ = p.Unmarshal()
+				stk.And().Push("x", "y").Transfer(m) // (Defrag / Reveal of a parent: families defragro, revealro)
+				c := stk.Cond("k", stk.Eq, m).SetValidityPolicy(accept)
+				c.SetExpression(m)
+				_ = c.String()
+				_, _ = c.Unmarshal()
+				_, _ = stk.ConvertStack(m)
+				_, _ = stk.ConvertCondition(m)
+				if now := deepDump(m, 0); !reflect.DeepEqual(before, now) {
+					bj, _ := json.Marshal(before)
+					aj, _ := json.Marshal(now)
+					problems = append(problems, fmt.Sprintf("the read-only instance changed while other instances handled it: before=%s after=%s", trunc(string(bj), 600), trunc(string(aj), 600)))
+				}
+			}()
 			// clearing the flag restores full mutability
 			if isStack {
 				s := pv.Elem().Interface().(stk.Stack)
